@@ -1,7 +1,7 @@
 (* C03 -- property theorems only.  Proofs live in C03/Proofs*.v. *)
 From Coq Require Import NArith List Bool Arith.
 From DV Require Import Base.Outcome Base.Bytes Base.Names C03.Gen C03.Model C03.Spec
-  C03.ProofsBuilder C03.ProofsBuilder2 C03.ModelWire C03.ProofsWire C03.ModelText C03.ProofsText.
+  C03.ProofsBuilder C03.ProofsBuilder2 C03.ModelWire C03.ProofsWire C03.ModelText C03.ProofsText C03.ModelSlice C03.ProofsSlice Base.PName C03.ProofsParsed.
 Import ListNotations.
 
 (* the transcribed NameBuilder code refines the abstract builder, for every
@@ -159,3 +159,122 @@ Theorem C03_message_zonefile_limits : forall s c : nat,
   (exceeds zf_name_ge s zf_name_lim = false <-> (s <= check_rel_lim)%nat).
 Proof. exact message_zonefile_limits. Qed.
 Print Assumptions C03_message_zonefile_limits.
+
+(* ---- slicing at label boundaries (absolute = true: Name, false: RelativeName;
+   wire_of true n = wire_abs n, wire_of false n = wire_rel n) *)
+Theorem C03_is_label_start_spec : forall absolute n i, Forall valid_label n ->
+  is_label_start absolute (wire_of absolute n) i = Ok ((i =? 0)%nat || is_start n i) /\
+  (((i =? 0)%nat || is_start n i = true) <-> at_label n i).
+Proof. exact is_label_start_full. Qed.
+Print Assumptions C03_is_label_start_spec.
+
+Theorem C03_split_spec : forall absolute n i, valid_rel n ->
+  match n_split absolute (wire_of absolute n) i with
+  | Ok (l, r) => exists k, (k <= length n)%nat /\ i = wire_len (firstn k n) /\
+                   l = wire_rel (firstn k n) /\ r = wire_of absolute (skipn k n) /\
+                   valid_rel (firstn k n) /\ valid_rel (skipn k n)
+  | Panic p => p = 8%N /\ ~ at_label n i
+  | _ => False
+  end.
+Proof. exact split_spec. Qed.
+Print Assumptions C03_split_spec.
+
+Theorem C03_truncate_spec : forall absolute n i, valid_rel n ->
+  match n_truncate absolute (wire_of absolute n) i with
+  | Ok l => exists k, (k <= length n)%nat /\ i = wire_len (firstn k n) /\
+              l = wire_rel (firstn k n) /\ valid_rel (firstn k n)
+  | Panic p => p = 8%N /\ ~ at_label n i
+  | _ => False
+  end.
+Proof. exact truncate_spec. Qed.
+Print Assumptions C03_truncate_spec.
+
+Theorem C03_range_from_spec : forall n i, valid_abs n ->
+  match n_range_from (wire_abs n) i with
+  | Ok r => exists k, (k <= length n)%nat /\ i = wire_len (firstn k n) /\
+              r = wire_abs (skipn k n) /\ valid_abs (skipn k n)
+  | Panic p => p = 8%N /\ ~ at_label n i
+  | _ => False
+  end.
+Proof. exact range_from_spec. Qed.
+Print Assumptions C03_range_from_spec.
+
+Theorem C03_range_spec : forall absolute n lo hi, valid_rel n ->
+  match n_range absolute (wire_of absolute n) lo hi with
+  | Ok r => exists k1 k2, (k1 <= k2 <= length n)%nat /\
+              lo_of lo = wire_len (firstn k1 n) /\ hi_of (wire_of absolute n) hi = wire_len (firstn k2 n) /\
+              r = wire_rel (firstn (k2 - k1) (skipn k1 n)) /\ valid_rel (firstn (k2 - k1) (skipn k1 n))
+  | Panic p =>
+      (p = 8%N /\ (~ at_label n (lo_of lo) \/ ~ at_label n (hi_of (wire_of absolute n) hi))) \/
+      (p = 9%N /\ (hi_of (wire_of absolute n) hi < lo_of lo)%nat) \/
+      (p = 10%N /\ absolute = true /\ hi = EUnb)
+  | _ => False
+  end.
+Proof. exact range_spec. Qed.
+Print Assumptions C03_range_spec.
+
+Theorem C03_parent_spec : forall absolute n, valid_rel n ->
+  n_parent absolute (wire_of absolute n) =
+    Ok (match n with [] => None | _ :: n' => Some (wire_of absolute n') end) /\
+  match n with [] => True | _ :: n' => valid_rel n' end.
+Proof. exact parent_spec. Qed.
+Print Assumptions C03_parent_spec.
+
+Theorem C03_into_relative_spec : forall n, valid_abs n ->
+  n_into_relative (wire_abs n) = Ok (wire_rel n) /\ valid_rel n.
+Proof. exact into_relative_spec. Qed.
+Print Assumptions C03_into_relative_spec.
+
+Theorem C03_into_absolute_spec : forall n, valid_rel n ->
+  n_into_absolute None (wire_rel n) = Ok (wire_abs n) /\ valid_abs n.
+Proof. exact into_absolute_spec. Qed.
+Print Assumptions C03_into_absolute_spec.
+
+Theorem C03_abs_strip_suffix_spec : forall n base, valid_abs n ->
+  match abs_strip_suffix n base with
+  | Ok (Some t) => exists p s, n = p ++ s /\ canon s = canon base /\ t = wire_rel p /\ valid_rel p
+  | Ok None => ends_with (n ++ [[]]) (base ++ [[]]) = false
+  | _ => False
+  end.
+Proof. exact abs_strip_suffix_spec. Qed.
+Print Assumptions C03_abs_strip_suffix_spec.
+
+Theorem C03_rel_strip_suffix_spec : forall n base, valid_rel n ->
+  match rel_strip_suffix n base with
+  | Ok (Some t) => exists p s, n = p ++ s /\ canon s = canon base /\ t = wire_rel p /\ valid_rel p
+  | Ok None => ends_with n base = false
+  | _ => False
+  end.
+Proof. exact rel_strip_suffix_spec. Qed.
+Print Assumptions C03_rel_strip_suffix_spec.
+
+(* ---- names taken from a message (model of parse_ref shared with C01) *)
+Theorem C03_parsed_name_valid : forall m pos lim p,
+  parse_ref m pos lim = Ok p -> (lim <= mlen m)%N -> wf_bytes m ->
+  exists n, parsed_to_name m p = Ok (wire_abs n) /\ valid_abs n /\
+            N.of_nat (length (wire_abs n)) = pn_len p.
+Proof. exact parsed_name_valid. Qed.
+Print Assumptions C03_parsed_name_valid.
+
+(* ---- UncertainName::from_octets / from_slice, Chain::new_uncertain *)
+Theorem C03_uncertain_absolute_iff : forall b, wf_bytes b ->
+  (uncertain_check b = Ok true <-> exists n, valid_abs n /\ b = wire_abs n).
+Proof. exact uncertain_absolute_iff. Qed.
+Print Assumptions C03_uncertain_absolute_iff.
+
+Theorem C03_uncertain_relative_valid : forall b, wf_bytes b -> uncertain_check b = Ok false ->
+  uncertain_rel_checked = true \/ uncertain_relative_255 b = false ->
+  exists n, valid_rel n /\ n <> [] /\ b = wire_rel n.
+Proof. exact uncertain_relative_valid. Qed.
+Print Assumptions C03_uncertain_relative_valid.
+
+Theorem C03_uncertain_limit_refuted : uncertain_rel_checked = false ->
+  wf_bytes (wire_rel unc_witness) /\ uncertain_check (wire_rel unc_witness) = Ok false /\
+  length (wire_rel unc_witness) = 255%nat /\ forall n, valid_rel n -> wire_rel unc_witness <> wire_rel n.
+Proof. exact uncertain_limit_refuted. Qed.
+Print Assumptions C03_uncertain_limit_refuted.
+
+Theorem C03_chain_uncertain_valid : forall l r, valid_rel l -> valid_abs r ->
+  chain_new_uncertain true (wire_len l) (wire_len r + 1) = Ok tt -> valid_abs (l ++ r).
+Proof. exact chain_uncertain_valid. Qed.
+Print Assumptions C03_chain_uncertain_valid.
